@@ -379,15 +379,20 @@ def run_harness(prop, h, idx, binp, tier, seed, log, replay=None, timeout=None):
             cmd.append("-test.v")
         cwd = os.path.join(REPO, h["pkg"])
     t0 = time.time()
-    hp = subprocess.Popen(cmd, cwd=cwd, env=env, stdout=subprocess.PIPE, stderr=subprocess.STDOUT, text=True,
-                          errors="replace")
-    # open the read end only after the writer exists; the driver reads the fifo as stdin
+    # The orchestrator owns both ends of the fifo: the read end becomes the driver's stdin before the
+    # harness starts (so nothing the harness writes can be lost, however small or fast it is), and a
+    # write end is held until the harness has exited (so the driver sees EOF exactly then).
+    rfd = os.open(fifo, os.O_RDONLY | os.O_NONBLOCK)
+    wfd = os.open(fifo, os.O_WRONLY)
+    fcntl.fcntl(rfd, fcntl.F_SETFL, fcntl.fcntl(rfd, fcntl.F_GETFL) & ~os.O_NONBLOCK)
     # the driver writes to a file, not a pipe: with many failing cases its output exceeds the pipe
     # buffer and it would stop draining the fifo while we wait for the harness (deadlock)
     dout_path = os.path.join(bdir, "%s.%d.drv.out" % (name, os.getpid()))
     dout_f = open(dout_path, "w+")
-    dp = subprocess.Popen(["/bin/sh", "-c", 'exec "$0" "$1" < "$2"', exe, machine, fifo], stdout=dout_f,
-                          stderr=subprocess.STDOUT)
+    dp = subprocess.Popen([exe, machine], stdin=rfd, stdout=dout_f, stderr=subprocess.STDOUT, close_fds=True)
+    os.close(rfd)
+    hp = subprocess.Popen(cmd, cwd=cwd, env=env, stdout=subprocess.PIPE, stderr=subprocess.STDOUT, text=True,
+                          errors="replace", close_fds=True)
     try:
         hout, _ = hp.communicate(timeout=timeout)
         hrc = hp.returncode
@@ -396,12 +401,7 @@ def run_harness(prop, h, idx, binp, tier, seed, log, replay=None, timeout=None):
         hout, _ = hp.communicate()
         hrc = 124
         hout += "\n[harness timeout after %ss]" % timeout
-    # if the harness died before opening the fifo, unblock the driver
-    try:
-        fd = os.open(fifo, os.O_WRONLY | os.O_NONBLOCK)
-        os.close(fd)
-    except OSError:
-        pass
+    os.close(wfd)
     try:
         drc = dp.wait(timeout=600)
     except subprocess.TimeoutExpired:
